@@ -255,7 +255,7 @@ public:
 		WaitForSingleObject(_thread, INFINITE);
 #else
 		void* ret;
-		ASL_VERIF_POINT(14, this);
+		ASL_VERIF_POINT(14, (void*)_thread);
 		pthread_join(_thread, &ret);
 		_thread = 0;
 #endif
